@@ -417,7 +417,10 @@ def run_replay(batch, res, lib, gen):
 # ----------------------------------------------------------------------------- hostile certificates
 
 CERT_KINDS = ["many-sans", "long-san", "expired", "not-yet-valid", "no-san", "wrong-name", "ip-san", "ed25519", "ed448", "p256", "p384",
-              "selfsigned-rsa", "idn-san", "wildcard", "empty-subject", "uri-san", "email-san", "long-cn", "nul-san"]
+              "selfsigned-rsa", "idn-san", "wildcard", "empty-subject", "uri-san", "email-san", "long-cn", "nul-san",
+              # certificates whose DER was edited after signing (the TLS proof of possession only needs the public key, which
+              # is untouched): the library that parses them may object late and in its own way
+              "der:duplicate-san-extension", "der:san-oid-to-unknown", "der:duplicate-basic-constraints"]
 
 
 def make_cert(kind):
@@ -475,6 +478,25 @@ def make_cert(kind):
     b = x509.CertificateBuilder().subject_name(name).issuer_name(name).public_key(key.public_key()).serial_number(4242).not_valid_before(nb).not_valid_after(na)
     if sans is not None:
         b = b.add_extension(x509.SubjectAlternativeName(sans), critical=kind == "empty-subject")
+    if kind.startswith("der:"):
+        from cryptography.hazmat.primitives.serialization import Encoding
+
+        # two extensions of the same DER shape whose OIDs differ in the last byte: subjectAltName 2.5.29.17 /
+        # issuerAltName 2.5.29.18, and basicConstraints 2.5.29.19 / a second copy made from 2.5.29.18's slot
+        b = b.add_extension(x509.IssuerAlternativeName([x509.DNSName("localhost")]), critical=False)
+        b = b.add_extension(x509.BasicConstraints(ca=False, path_length=None), critical=False)
+        der = bytearray(b.sign(key, alg).public_bytes(Encoding.DER))
+        san, ian, bc = bytes.fromhex("0603551d11"), bytes.fromhex("0603551d12"), bytes.fromhex("0603551d13")
+        if kind == "der:duplicate-san-extension":
+            i = der.index(ian)
+            der[i : i + 5] = san
+        elif kind == "der:san-oid-to-unknown":
+            i = der.index(san)
+            der[i : i + 5] = bytes.fromhex("0603551d7f")
+        elif kind == "der:duplicate-basic-constraints":
+            i = der.index(ian)
+            der[i : i + 5] = bc
+        return x509.load_der_x509_certificate(bytes(der)), key
     return b.sign(key, alg), key
 
 
